@@ -203,7 +203,7 @@ def nontrivial(case):
 
 def tally(rep, case, impl_res, ans):
     for o in case['ops']:
-        rep.count('op:' + o['k'] + ((':' + o['kind']) if o['k'] == 'write_file' else ''))
+        rep.count('op:' + o['k'] + ((':' + o['kind'] + ('(delimiter!=suffix)' if o.get('mismatch') else '')) if o['k'] == 'write_file' else ''))
     rep.count('history_len:%d' % len(case['ops']))
 
 
@@ -291,7 +291,7 @@ def rand_history(rng, spec, L):
             else:
                 stem = 'cluster_info'
                 text = dl.join(['cluster_id', 'group', 'zz']) + '\n' + '1%sxx%s3\n' % (dl, dl)
-            ops.append(dict(k=k, stem=stem, ext=ext, text=text, kind=kind))
+            ops.append(dict(k=k, stem=stem, ext=ext, text=text, kind=kind, mismatch=(kind == 'valid' and rng.random() < .4)))
         elif k == 'save_subset':
             ops.append(dict(k=k, nst=rng.randrange(1, 3), rs=rng.randrange(1000)))
         elif k == 'close':
@@ -307,6 +307,8 @@ def rand_history(rng, spec, L):
             continue
         if o['k'] == 'write_file':
             o['ext'] = seen.setdefault(o['stem'], o['ext'])
+            if o['kind'] == 'valid' and o.get('mismatch'):
+                continue        # a tab-separated .csv / comma-separated .tsv (old phy files): the header decides
             if o['kind'] != 'empty':
                 dl_old, dl_new = ('\t', ',') if o['ext'] == 'csv' else (',', '\t')
                 if ('\t' in o['text'].split('\n')[0]) != (o['ext'] == 'tsv'):
